@@ -41,7 +41,11 @@ def contact_jac(lib, m, d, c, nv):
   jp1, jr1, jp2, jr2 = (np.zeros((3, nv)) for _ in range(4))
   lib.mj_jac(m, d, jp1, jr1, pos, b1)
   lib.mj_jac(m, d, jp2, jr2, pos, b2)
-  return np.vstack([fr @ (jp2 - jp1), fr @ (jr2 - jr1)])
+  S = np.vstack([fr @ (jp2 - jp1), fr @ (jr2 - jr1)])
+  # magnitude of the terms that are added to form S (the two body Jacobians may cancel): rounding scale of S
+  af = np.abs(fr)
+  Smag = np.vstack([af @ (np.abs(jp2) + np.abs(jp1)), af @ (np.abs(jr2) + np.abs(jr1))])
+  return S, Smag
 
 
 FP_NOSLIP = 'C11/noslip-qcqp-infeasible'
@@ -231,11 +235,11 @@ def main(ck):
         if not np.all(np.isfinite(res)) or e > K_DEC:
           raise Violation('%s: mj_contactForce(contact %d, dim %d, %s) = %s but efc_force %s decodes to %s' % (
               tag, c, dim, gc.TYPE_NAMES[ty], res, fb, want), bucket='contactforce')
-        S = contact_jac(lib, m, d, c, nv)
+        S, Smag = contact_jac(lib, m, d, c, nv)
         qc_wrench += S.T @ res
         Jc = J[adr:adr + nrow]
         qc_rows += Jc.T @ fb
-        sc_phys += np.abs(S).T @ np.abs(res) + np.abs(Jc).T @ np.abs(fb)
+        sc_phys += Smag.T @ np.abs(res) + np.abs(Jc).T @ np.abs(fb)
         labels.add('%s-dim%d' % (gc.TYPE_NAMES[ty], dim))
       if ncon:
         e = float(np.linalg.norm(qc_wrench - qc_rows) / (EPS * np.linalg.norm(sc_phys) + 1e-300))
@@ -263,7 +267,7 @@ def main(ck):
       labs += gc.composition(lib, d)
     ck.case(nontrivial=nontriv, key=case.key(), sample=case.sample(**info) if nontriv else None, labels=labs)
 
-  ck.run_hypothesis(test, gc.cases(max_bodies=5 if ck.quick else 7), ck.budget(400, 8000), name='admissible')
+  ck.run_hypothesis(test, gc.cases(max_bodies=5 if ck.quick else 7), ck.budget(900, 10000), name='admissible')
   ck.extra['tolerances'] = dict(REL=REL, K_QFRC=K_QFRC, K_DEC=K_DEC, K_PHYS=K_PHYS)
   ck.extra['worst_observed'] = {k: float('%.4g' % v) for k, v in worst.items()}
 
